@@ -23,23 +23,29 @@ pub fn expand(frame: &Frame) -> Result<Vec<Vec<i64>>, String> {
         }
         ch.push(v);
     }
+    // decorrelation is undone in the sample type the stream carries: 32-bit two's complement when
+    // the side channel is a common (<= 32-bit) subframe, 64-bit only for the 33-bit side channel of
+    // 32-bit streams. For valid frames nothing overflows; for checksum-valid malformed frames this
+    // is the arithmetic "samples of that width" means.
+    let wide = frame.subframes.iter().any(|s| matches!(s, SubframeWidth::Wide(_)));
+    let w = |v: i64| -> i64 { if wide { v } else { v as i32 as i64 } };
     match frame.header.channel_assignment {
         ChannelAssignment::Independent(_) => {}
         ChannelAssignment::LeftSide => {
-            let r: Vec<i64> = ch[0].iter().zip(&ch[1]).map(|(l, s)| l.wrapping_sub(*s)).collect();
+            let r: Vec<i64> = ch[0].iter().zip(&ch[1]).map(|(l, s)| w(l.wrapping_sub(*s))).collect();
             ch[1] = r;
         }
         ChannelAssignment::SideRight => {
-            let l: Vec<i64> = ch[0].iter().zip(&ch[1]).map(|(s, r)| s.wrapping_add(*r)).collect();
+            let l: Vec<i64> = ch[0].iter().zip(&ch[1]).map(|(s, r)| w(s.wrapping_add(*r))).collect();
             ch[0] = l;
         }
         ChannelAssignment::MidSide => {
             let mut l = Vec::with_capacity(n);
             let mut r = Vec::with_capacity(n);
             for (m, s) in ch[0].iter().zip(&ch[1]) {
-                let mm = m.wrapping_shl(1) | (s & 1);
-                l.push(mm.wrapping_add(*s) >> 1);
-                r.push(mm.wrapping_sub(*s) >> 1);
+                let mm = w(w(m.wrapping_shl(1)) | (s & 1));
+                l.push(w(mm.wrapping_add(*s)) >> 1);
+                r.push(w(mm.wrapping_sub(*s)) >> 1);
             }
             ch[0] = l;
             ch[1] = r;
